@@ -117,6 +117,18 @@ func c02Panics(c *Ctx, r *RuleResult, scope map[*ssa.Function]bool) {
 						}
 					}
 				}
+				// the key was not found in a read-only table keyed by the constants of a named type
+				if tab, idx, isOK, _ := tableLookup(p, cd.V); tab != nil && isOK && !cd.True {
+					if n := namedOf(idx.Type()); n != nil {
+						kindT = n
+						for _, e := range tab.entries {
+							if e.key != nil {
+								kinds[e.key.ExactString()] = true
+							}
+						}
+						continue
+					}
+				}
 				other++
 			}
 			switch {
@@ -384,13 +396,37 @@ func lookupOnlyWrapper(fn *ssa.Function) bool {
 		switch in.(type) {
 		case *ssa.Lookup:
 			has = true
-		case *ssa.MapUpdate, *ssa.Store:
+		case *ssa.MapUpdate:
 			ok = false
+		case *ssa.Store:
+			// building a composite key in a local (`pair{a, b}`) is not a write
+			if !storeIntoLocal(in.(*ssa.Store)) {
+				ok = false
+			}
 		case ssa.CallInstruction:
 			ok = false
 		}
 	})
 	return has && ok
+}
+
+// storeIntoLocal: the store writes a local variable of the function (or a field / element of one) that is not captured.
+func storeIntoLocal(st *ssa.Store) bool {
+	a := st.Addr
+	for i := 0; i < 4; i++ {
+		switch x := a.(type) {
+		case *ssa.FieldAddr:
+			a = x.X
+			continue
+		case *ssa.IndexAddr:
+			a = x.X
+			continue
+		case *ssa.Alloc:
+			return !x.Heap
+		}
+		break
+	}
+	return false
 }
 
 func insertWrapper(fn *ssa.Function) bool {
@@ -642,7 +678,7 @@ func c02Recursion(c *Ctx, r3, r4 *RuleResult, scope map[*ssa.Function]bool) {
 				edgeGates = append(edgeGates, edgeGate{e.site, egates, sccs[ci]})
 			}
 			// the one link-following recursion that is cut by another rule instead of a visited set
-			if kind == "" && p.FuncName(e.from) == "ast.(*Value).Value" && e.to == e.from && loadOfField(e.site.Common().Args[0], "VariableDefinition", "DefaultValue") {
+			if kind == "" && p.FuncName(e.to) == "ast.(*Value).Value" && len(e.site.Common().Args) > 0 && loadOfField(e.site.Common().Args[0], "VariableDefinition", "DefaultValue") {
 				kind = "gated"
 				c.Assume("ast.(*Value).Value follows VariableDefinition.DefaultValue without a visited set: a default value is a constant (C05.R1: parseVariableDefinition passes isConst=true), so the callee cannot take the Variable branch again")
 			}
